@@ -64,7 +64,7 @@ pub fn property() -> Property {
         id: 0,
         name: "constructed message -> bytes -> parse -> equal; framing; independent decode; idempotence",
         quick: 12_000,
-        thorough: 1_500_000,
+        thorough: 10_000_000,
         max_len: 400,
         max_threads: 0,
       },
@@ -72,7 +72,7 @@ pub fn property() -> Property {
         id: 1,
         name: "number sets: from_base_and_set / iter / len_serialized / wire vs reference BTreeSet",
         quick: 8_000,
-        thorough: 500_000,
+        thorough: 4_000_000,
         max_len: 96,
         max_threads: 0,
       },
@@ -80,7 +80,7 @@ pub fn property() -> Property {
         id: 2,
         name: "raw bytes: if they parse, re-serialise and re-parse to an equal message",
         quick: 6_000,
-        thorough: 500_000,
+        thorough: 4_000_000,
         max_len: 300,
         max_threads: 0,
       },
